@@ -11,4 +11,4 @@ CONF = {
     'shard_timeout': 900,
 }
 
-CHECK = {'text': 'Theorems over the same cache model with the fault vocabulary (files that fail to load for any reason; directories missing, unscannable, being a file): how a name resolves depends only on the loaded files that define it (isolation), resolution is the precedence rule whatever else is in the directories (resolution_is_the_rule), missing/unscannable directories are skipped without stopping the scan, every failing Spec file has an entry in the error report (failed_reported), an explicit refresh returns an error iff the report is non-empty (refresh_fails_iff), and the report is a function of the current content only, so an entry disappears at the first refresh after repair (memoryless). Tied to pkg/cdi by fault-placement layouts (syntax and semantic errors, empty files, dangling links, links to directories, directories missing / a file / with a non-directory ancestor, repeated) in every position, with later repairs, in manual and automatic refresh mode; the oracle evaluates on the OBSERVED answers: resolution of every probed name, error keys = failing files + files in a same-priority conflict exactly, Refresh() error iff that set is non-empty.', 'note': 'Trusted: as C01. Partial: that the report contains nothing but failing and conflicting files (errors_exact) is evaluated by the judge on every observed report and on the model, not yet a theorem. Permission faults cannot be produced as root; files vanishing between listing and reading are represented by dangling links. No axioms.', 'technique': 'Coq proof (isolation/monotonicity lemmas over the scan fold) + differential correspondence with fault placement on real directories via vm_compute'}
+CHECK = {'text': 'Theorems over the same cache model with the fault vocabulary (files that fail to load for any reason; directories missing, unscannable, being a file): how a name resolves depends only on the loaded files that define it (isolation), resolution is the precedence rule whatever else is in the directories (resolution_is_the_rule), missing/unscannable directories are skipped without stopping the scan, the error report contains EXACTLY the failing files and the files in a same-priority conflict (errors_exact, from a closed form of the error list over the scan), an explicit refresh returns an error iff the report is non-empty (refresh_fails_iff), and the report is a function of the current content only, so an entry disappears at the first refresh after repair (memoryless). Tied to pkg/cdi by fault-placement layouts (syntax and semantic errors, empty files, dangling links, links to directories, directories missing / a file / with a non-directory ancestor, repeated) in every position, with later repairs, in manual and automatic refresh mode; the oracle evaluates on the OBSERVED answers: resolution of every probed name, error keys = failing files + files in a same-priority conflict exactly, Refresh() error iff that set is non-empty.', 'note': 'Trusted: as C01. Permission faults cannot be produced as root; files vanishing between listing and reading are represented by dangling links. No axioms.', 'technique': 'Coq proof (isolation/monotonicity lemmas over the scan fold) + differential correspondence with fault placement on real directories via vm_compute'}
